@@ -889,3 +889,257 @@ Proof.
   split; [exact Ho|]. split; [rewrite Hot; discriminate|]. split; [reflexivity|]. split; [exact Hf_i|].
   split; [exact H4ps|]. split; [exact Hgx_o|exact Hlg_e].
 Qed.
+
+(* ------------------------------------------------------------------ discarded entries *)
+Lemma EntOk_disc evl g w e en :
+  e_ign en = IDiscarded -> (s_oid (e_l en) <> None \/ s_oid (e_r en) <> None) ->
+  (forall sd, s_otype (gs en sd) = File /\ s_force (gs en sd) = false /\
+     (s_oid (gs en sd) = None -> tchg (s_chg (gs en sd)) = false /\ s_path (gs en sd) = None /\ s_hash (gs en sd) = None /\
+                                 s_spath (gs en sd) = None /\ s_shash (gs en sd) = None) /\
+     (forall o, s_oid (gs en sd) = Some o -> exists k ob, o = ostr_k k /\ obj_at w sd k = Some ob /\ (2 <= k)%nat /\
+        ProvModel.o_exists ob = false /\
+        (pd evl sd k = true \/ x_lg (getx w e sd) < maxchg en \/ freshP (gs en sd) ob) /\
+        popt (s_path (gs en sd)) (pstr (ProvModel.o_path ob)) /\ popt (s_spath (gs en sd)) (pstr (ProvModel.o_path ob)))) ->
+  EntOk evl g w e en.
+Proof.
+  intros Hi Hs H. assert (Hd: is_discarded (e_ign en) = true) by (rewrite Hi; reflexivity).
+  constructor; [right; exact Hi|exact Hs|]. intros sd. destruct (H sd) as (A & B & C & D).
+  constructor; auto.
+  - intros _ X. congruence.
+  - intros o Ho. destruct (D o Ho) as (k & ob & X1 & X2 & X3 & X4 & X5 & X6 & X7). exists k, ob. repeat (split; [assumption|]).
+    constructor; auto; intros X; congruence.
+Qed.
+
+(* ------------------------------------------------------------------ delete_synced *)
+Lemma ign_entry_disc en : e_ign en = INone ->
+  ign_entry en IDiscarded = mkEnt (w_chg (e_l en) CFalse) (w_chg (e_r en) CFalse) IDiscarded (e_prio en) /\
+  ign_member en IDiscarded = Some false.
+Proof. intros H. unfold ign_entry, ign_member. rewrite H. split; reflexivity. Qed.
+
+Lemma gs_disc2 en i p sd : gs (mkEnt (w_chg (e_l en) CFalse) (w_chg (e_r en) CFalse) i p) sd = w_chg (gs en sd) CFalse.
+Proof. destruct sd; reflexivity. Qed.
+
+Lemma delete_pres g w e en s k w3 calls rs :
+  SCtx g w e en -> e_ign en = INone -> s_ex (gs en s) = ExTrashed -> s_oid (gs en s) = Some (ostr_k k) ->
+  delete_synced w e s = ROk (w3, calls, rs) ->
+  rs = Finished /\ exists en3, SCtx g w3 e en3 /\ is_discarded (e_ign en3) = true /\
+    (forall x sd0, getx w3 x sd0 = getx w x sd0).
+Proof.
+  intros [I He Hn Hr] Hign Hex Ho H.
+  set (t := negb s) in *.
+  pose proof (i_cfg _ _ _ I) as Hcfg. pose proof (i_tape _ _ _ I) as Htape. pose proof (i_ents _ _ _ I e en He Hn) as EO.
+  assert (Hndisc: is_discarded (e_ign en) = false) by (rewrite Hign; reflexivity).
+  destruct (so_full _ _ _ _ _ _ (eo_side _ _ _ _ _ EO s) _ Ho) as (k1 & ob & Hk1 & Hob & Hk2 & FO).
+  apply ostr_k_inj in Hk1. subst k1.
+  assert (Hdead: ProvModel.o_exists ob = false) by (apply (fo_trash _ _ _ _ _ _ _ _ FO Hex)).
+  assert (Hgs: exists cs, g_get k (g_of g s) = Some cs).
+  { destruct (g_get k (g_of g s)) as [cs|] eqn:Eg; [eauto|]. destruct (fo_mirror _ _ _ _ _ _ _ _ FO Hndisc Eg) as (X & _). congruence. }
+  destruct Hgs as (cs & Hg).
+  unfold delete_synced in H. unfold get_e, lift, get_ent in H. rewrite Hn in H. cbn [rbind] in H.
+  match type of H with context [existsb ?F ?L] => destruct (existsb F L); [discriminate|] end.
+  match type of H with context [existsb ?F ?L] => destruct (existsb F L); [discriminate|] end.
+  fold t in H.
+  destruct (s_oid (gs en t)) as [o'|] eqn:Eot.
+  - (* the peer object is deleted *)
+    destruct (so_full _ _ _ _ _ _ (eo_side _ _ _ _ _ EO t) _ Eot) as (k' & ob' & Hk1 & Hobt & Hk2' & FOt). subst o'.
+    assert (Hot_ne: s_oid (gs en (negb s)) <> None) by (fold t; rewrite Eot; discriminate).
+    destruct (fo_owner _ _ _ _ _ _ _ _ FO Hndisc cs Hg) as (P1 & P2 & P3 & P4 & P5).
+    destruct (P5 Hot_ne) as (Q1 & Q2 & Q3 & Q4).
+    assert (Hgt: g_get k' (g_of g t) = None) by (apply Q4; exact Eot).
+    destruct (fo_mirror _ _ _ _ _ _ _ _ FOt Hndisc Hgt) as (M1 & M2 & M3 & M4 & M5 & M6 & _).
+    destruct (sh_files _ _ (i_shape _ _ _ I t) k' ob' Hk2' Hobt) as (Hkf' & n' & Hpn' & Hnok').
+    rewrite tstr_ostr in H. rewrite (key_of_std w t k' Hcfg) in H. cbn [rbind] in H.
+    pose proof (i_pwf _ _ _ I t) as HWt. unfold obj_at in Hobt.
+    destruct (delete_spec _ _ _ HWt Hobt M1 Hkf') as (pv & Edel & Hheap & Hlog & Hcur & Hpcfg & HWv).
+    rewrite Edel in H.
+    set (ob'' := ProvModel.set_exists ob' false) in *.
+    set (w2 := with_prov w t pv) in *.
+    assert (H2cfg: w_cfg w2 = cfg_std 1) by (unfold w2, with_prov; destruct t; exact Hcfg).
+    assert (H2st: w_st w2 = w_st w) by (unfold w2, with_prov; destruct t; reflexivity).
+    assert (H2tape: tape (w_st w2) = []) by (rewrite H2st; exact Htape).
+    assert (H2n: nth_error (ents (w_st w2)) e = Some en) by (rewrite H2st; exact Hn).
+    destruct (plain_w w2 H2tape e s (fun y => w_spath y None) en H2n) as (wa & Ha & Wa); [intros; split; reflexivity|].
+    rewrite Ha in H. cbn [rbind] in H. set (ena := ss en s (w_spath (gs en s) None)) in *.
+    pose proof (weff_nth _ _ _ _ _ _ Wa H2n) as Hna. assert (Hta: tape (w_st wa) = []) by (destruct Wa as (_ & _ & _ & _ & _ & T); exact T).
+    destruct (plain_w wa Hta e t (fun y => w_ex y ExTrashed) ena Hna) as (wb & Hb & Wb); [intros; split; reflexivity|].
+    rewrite Hb in H. cbn [rbind] in H. set (enb := ss ena t (w_ex (gs ena t) ExTrashed)) in *.
+    pose proof (weff_nth _ _ _ _ _ _ Wb Hna) as Hnb. assert (Htb: tape (w_st wb) = []) by (destruct Wb as (_ & _ & _ & _ & _ & T); exact T).
+    unfold get_e, lift, get_ent in H. rewrite Hnb in H. cbn [rbind] in H.
+    assert (Hign_b: e_ign enb = INone) by (unfold enb, ena; rewrite !ign_ss; exact Hign).
+    rewrite Hign_b in H. cbn [is_conflicted] in H.
+    assert (Hbcfg: w_cfg wb = cfg_std 1) by (destruct Wa as (A & _); destruct Wb as (B & _); congruence).
+    destruct (set_ignored_w wb Htb e IDiscarded enb Hnb) as (wc & Hc' & Wc).
+    rewrite Hc' in H. cbn [rbind] in H. injection H as <- <- <-. split; [reflexivity|].
+    destruct (ign_entry_disc enb Hign_b) as (Hie & Him). rewrite Hie, Him in Wc.
+    set (en3 := mkEnt (w_chg (e_l enb) CFalse) (w_chg (e_r enb) CFalse) IDiscarded (e_prio enb)) in *.
+    pose proof (weff_trans _ _ _ _ _ _ _ _ (weff_trans _ _ _ _ _ _ _ _ Wa Wb) Wc) as W24. cbn [mcomp] in W24.
+    exists en3.
+    assert (Hst: t <> s) by (unfold t; destruct s; discriminate).
+    assert (Hf_s: gs en3 s = w_chg (w_spath (gs en s) None) CFalse).
+    { unfold en3. rewrite gs_disc2. unfold enb. rewrite gs_ss_neq by (intros X; apply Hst; symmetry; exact X).
+      unfold ena. rewrite gs_ss_same. reflexivity. }
+    assert (Hf_t: gs en3 t = w_chg (w_ex (gs en t) ExTrashed) CFalse).
+    { unfold en3. rewrite gs_disc2. unfold enb. rewrite gs_ss_same.
+      unfold ena. rewrite gs_ss_neq by exact Hst. reflexivity. }
+    assert (H4cfg: w_cfg wc = w_cfg w) by (destruct W24 as (A & _); rewrite A, H2cfg; symmetry; exact Hcfg).
+    assert (H4ps: prov_of wc s = prov_of w s).
+    { rewrite (weff_prov _ _ _ _ _ s W24). unfold w2, with_prov, t. destruct s; reflexivity. }
+    assert (H4pt: prov_of wc t = pv) by (rewrite (weff_prov _ _ _ _ _ t W24); unfold w2, with_prov; destruct t; reflexivity).
+    assert (Hgx: forall x sd0, getx wc x sd0 = getx w x sd0).
+    { intros. rewrite (weff_getx _ _ _ _ _ x sd0 W24). unfold getx, w2, with_prov. destruct t; reflexivity. }
+    destruct W24 as (_ & _ & _ & _ & (SA & SB & SC & SD & SJ) & WT). rewrite H2st in SA, SB, SC, SD, SJ.
+    assert (Hlt': (k' < length (ProvModel.p_heap (prov_of w t)))%nat) by (apply nth_error_Some; congruence).
+    assert (Hobt4: obj_at wc t k' = Some ob'') by (unfold obj_at; rewrite H4pt, Hheap; apply nth_hset_same; exact Hlt').
+    assert (Hobt_o: forall k0, k0 <> k' -> obj_at wc t k0 = obj_at w t k0).
+    { intros k0 Hne. unfold obj_at. rewrite H4pt, Hheap. apply nth_hset_other. exact Hne. }
+    assert (Hobs: forall k0, obj_at wc s k0 = obj_at w s k0) by (intros; unfold obj_at; rewrite H4ps; reflexivity).
+    assert (Hen4: nth_error (ents (w_st wc)) e = Some en3) by (rewrite SA; eapply nth_list_upd_eq; eauto).
+    set (ev := ProvModel.snapshot ProvModel.EvDelete ob'' None) in *.
+    assert (Hpdt: pd (real_evl wc) t k' = true).
+    { unfold pd, real_evl. rewrite H4pt. rewrite (events_from_app _ _ _ Hcur Hlog (pw_cursor _ HWt)), existsb_app. cbn [existsb].
+      unfold ev_for at 2. unfold ev. cbn [ProvModel.snapshot ProvModel.e_oid]. unfold ob''. cbn [ProvModel.set_exists ProvModel.o_oid].
+      rewrite (pw_oid _ HWt _ _ Hobt), key_eqb_refl, orb_true_r. reflexivity. }
+    assert (Hpds: forall k0, pd (real_evl wc) s k0 = pd (real_evl w) s k0) by (intros; unfold pd, real_evl; rewrite H4ps; reflexivity).
+    assert (Hi3: e_ign en3 = IDiscarded) by reflexivity.
+    assert (EO3: EntOk (real_evl wc) g wc e en3).
+    { apply EntOk_disc; [exact Hi3| |].
+      - destruct s; [right; change (e_r en3) with (gs en3 true)|left; change (e_l en3) with (gs en3 false)]; rewrite Hf_s; cbn [w_chg w_spath s_oid]; rewrite Ho; discriminate.
+      - intros sd0. destruct (Bool.bool_dec sd0 s) as [Heq|Hne].
+        + subst sd0. rewrite Hf_s. cbn [w_chg w_spath s_otype s_force s_oid s_chg s_path s_hash s_spath s_shash tchg].
+          split; [apply (ent_file (real_evl w) g w e en EO s)|]. split; [apply (ent_force (real_evl w) g w e en EO s)|].
+          split; [rewrite Ho; discriminate|]. intros o0 Ho0. rewrite Ho in Ho0. injection Ho0 as <-.
+          exists k, ob. split; [reflexivity|]. split; [rewrite Hobs; exact Hob|]. split; [exact Hk2|]. split; [exact Hdead|].
+          split; [|split; [apply (fo_path _ _ _ _ _ _ _ _ FO)|left; reflexivity]].
+          destruct (Hr s k ob Ho Hob) as [X|X]; [left; rewrite Hpds; exact X|right; right; exact X].
+        + assert (sd0 = t) by (unfold t; destruct sd0, s; try reflexivity; contradiction). subst sd0.
+          rewrite Hf_t. cbn [w_chg w_ex s_otype s_force s_oid s_chg s_path s_hash s_spath s_shash tchg].
+          split; [apply (ent_file (real_evl w) g w e en EO t)|]. split; [apply (ent_force (real_evl w) g w e en EO t)|].
+          split; [rewrite Eot; discriminate|]. intros o0 Ho0. rewrite Eot in Ho0. injection Ho0 as <-.
+          exists k', ob''. split; [reflexivity|]. split; [exact Hobt4|]. split; [exact Hk2'|]. split; [reflexivity|].
+          split; [left; exact Hpdt|]. split; [right; exact M6|right; exact M5]. }
+    split.
+    { constructor; [|exact He|exact Hen4|].
+      - apply (inv_prov_step g w wc e en3 t k' ob'' ev I He H4cfg).
+        + assert (Hs': negb t = s) by (unfold t; destruct s; reflexivity). rewrite Hs'. exact H4ps.
+        + rewrite H4pt. exact HWv.
+        + rewrite H4pt. exact Hcur.
+        + rewrite H4pt. exact Hlog.
+        + unfold ev, ob''. cbn [ProvModel.snapshot ProvModel.e_oid ProvModel.set_exists ProvModel.o_oid]. apply (pw_oid _ HWt _ _ Hobt).
+        + exact Hk2'.
+        + exact Hobt4.
+        + reflexivity.
+        + intros _. reflexivity.
+        + exact Hkf'.
+        + exists n'. split; [exact Hpn'|exact Hnok'].
+        + exact Hobt_o.
+        + intros ob0 _ _. reflexivity.
+        + rewrite H4pt, Hheap, hset_length. lia.
+        + intros x xn Hne Hxn Hox. apply Hne. apply (idx_unique_ent _ _ _ _ _ _ _ (i_idx _ _ _ I) Hxn Hox Hn Eot).
+        + intros cs0 Hcs0. congruence.
+        + exact Hen4.
+        + rewrite SA. apply length_list_upd.
+        + intros x xn Hne Hxn. exists xn. split; [rewrite SA, nth_list_upd_neq by congruence; exact Hxn|apply same_but_prio_refl].
+        + intros x Hne. rewrite SB. destruct (Nat.eqb_spec x e); [contradiction|reflexivity].
+        + intros Hfl. exfalso. unfold flagged, en3 in Hfl. simpl in Hfl. discriminate.
+        + exact SC.
+        + rewrite SD. pose proof (i_clk _ _ _ I). lia.
+        + unfold maxchg, chgv, en3. simpl. apply N.le_0_l.
+        + intros sd0. rewrite Hgx. destruct (i_clke _ _ _ I e en Hn) as (_ & Hlgs). specialize (Hlgs sd0). lia.
+        + exact WT.
+        + apply SJ. apply (i_idx _ _ _ I).
+        + intros; apply Hgx.
+        + intros sd0 o0 (en0 & Hen0 & Ho0). assert (en0 = en) by congruence. subst en0.
+          destruct (Bool.bool_dec sd0 s) as [Heq|Hne]; [subst sd0; rewrite Hf_s; exact Ho0|].
+          assert (sd0 = t) by (unfold t; destruct sd0, s; try reflexivity; contradiction). subst sd0. rewrite Hf_t. exact Ho0.
+        + rewrite Hf_t. exact Eot.
+        + exact EO3.
+      - intros sd0 k0 ob0 Ho0 Hob0. destruct (Bool.bool_dec sd0 s) as [Heq|Hne].
+        + subst sd0. rewrite Hf_s in Ho0. cbn [w_chg w_spath s_oid] in Ho0. rewrite Hobs in Hob0.
+          rewrite Hpds, Hf_s. destruct (Hr s k0 ob0 Ho0 Hob0) as [X|X]; [left; exact X|right; exact X].
+        + assert (sd0 = t) by (unfold t; destruct sd0, s; try reflexivity; contradiction). subst sd0.
+          rewrite Hf_t in Ho0. cbn [w_chg w_ex s_oid] in Ho0. rewrite Eot in Ho0. injection Ho0 as Ho0. apply Nnat.Nat2N.inj in Ho0. subst k0. left. exact Hpdt. }
+    split; [reflexivity|exact Hgx].
+  - (* never synchronised: nothing to delete *)
+    cbn [rbind] in H.
+    destruct (plain_w w Htape e t (fun y => w_ex y ExTrashed) en Hn) as (wb & Hb & Wb); [intros; split; reflexivity|].
+    rewrite Hb in H. cbn [rbind] in H. set (enb := ss en t (w_ex (gs en t) ExTrashed)) in *.
+    pose proof (weff_nth _ _ _ _ _ _ Wb Hn) as Hnb. assert (Htb: tape (w_st wb) = []) by (destruct Wb as (_ & _ & _ & _ & _ & T); exact T).
+    unfold get_e, lift, get_ent in H. rewrite Hnb in H. cbn [rbind] in H.
+    assert (Hign_b: e_ign enb = INone) by (unfold enb; rewrite !ign_ss; exact Hign).
+    rewrite Hign_b in H. cbn [is_conflicted] in H.
+    destruct (set_ignored_w wb Htb e IDiscarded enb Hnb) as (wc & Hc' & Wc).
+    rewrite Hc' in H. cbn [rbind] in H. injection H as <- <- <-. split; [reflexivity|].
+    destruct (ign_entry_disc enb Hign_b) as (Hie & Him). rewrite Hie, Him in Wc.
+    set (en3 := mkEnt (w_chg (e_l enb) CFalse) (w_chg (e_r enb) CFalse) IDiscarded (e_prio enb)) in *.
+    pose proof (weff_trans _ _ _ _ _ _ _ _ Wb Wc) as W24. cbn [mcomp] in W24.
+    exists en3.
+    assert (Hst: t <> s) by (unfold t; destruct s; discriminate).
+    assert (Hf_s: gs en3 s = w_chg (gs en s) CFalse).
+    { unfold en3. rewrite gs_disc2. unfold enb. rewrite gs_ss_neq by (intros X; apply Hst; symmetry; exact X). reflexivity. }
+    assert (Hf_t: gs en3 t = w_chg (w_ex (gs en t) ExTrashed) CFalse).
+    { unfold en3. rewrite gs_disc2. unfold enb. rewrite gs_ss_same. reflexivity. }
+    assert (Hprov: forall sd0, prov_of wc sd0 = prov_of w sd0) by (intros; apply (weff_prov _ _ _ _ _ sd0 W24)).
+    assert (Hgx: forall x sd0, getx wc x sd0 = getx w x sd0) by (intros; apply (weff_getx _ _ _ _ _ x sd0 W24)).
+    assert (Hobj: forall sd0 k0, obj_at wc sd0 k0 = obj_at w sd0 k0) by (intros; unfold obj_at; rewrite Hprov; reflexivity).
+    assert (Hpd: forall sd0 k0, pd (real_evl wc) sd0 k0 = pd (real_evl w) sd0 k0) by (intros; unfold pd, real_evl; rewrite Hprov; reflexivity).
+    pose proof W24 as (W4cfg & _ & _ & _ & (SA & SB & SC & SD & SJ) & WT).
+    assert (Hen4: nth_error (ents (w_st wc)) e = Some en3) by (rewrite SA; eapply nth_list_upd_eq; eauto).
+    destruct (so_empty _ _ _ _ _ _ (eo_side _ _ _ _ _ EO t) Eot) as (Etc & Etp & Eth & Etsp & Etsh).
+    assert (EO3: EntOk (real_evl wc) g wc e en3).
+    { apply EntOk_disc; [reflexivity| |].
+      - destruct s; [right; change (e_r en3) with (gs en3 true)|left; change (e_l en3) with (gs en3 false)]; rewrite Hf_s; cbn [w_chg s_oid]; rewrite Ho; discriminate.
+      - intros sd0. destruct (Bool.bool_dec sd0 s) as [Heq|Hne].
+        + subst sd0. rewrite Hf_s. cbn [w_chg s_otype s_force s_oid s_chg s_path s_hash s_spath s_shash tchg].
+          split; [apply (ent_file (real_evl w) g w e en EO s)|]. split; [apply (ent_force (real_evl w) g w e en EO s)|].
+          split; [rewrite Ho; discriminate|]. intros o0 Ho0. rewrite Ho in Ho0. injection Ho0 as <-.
+          exists k, ob. split; [reflexivity|]. split; [rewrite Hobj; exact Hob|]. split; [exact Hk2|]. split; [exact Hdead|].
+          split; [|split; [apply (fo_path _ _ _ _ _ _ _ _ FO)|apply (fo_spath _ _ _ _ _ _ _ _ FO)]].
+          destruct (Hr s k ob Ho Hob) as [X|X]; [left; rewrite Hpd; exact X|right; right; exact X].
+        + assert (sd0 = t) by (unfold t; destruct sd0, s; try reflexivity; contradiction). subst sd0.
+          rewrite Hf_t. cbn [w_chg w_ex s_otype s_force s_oid s_chg s_path s_hash s_spath s_shash tchg].
+          split; [apply (ent_file (real_evl w) g w e en EO t)|]. split; [apply (ent_force (real_evl w) g w e en EO t)|].
+          split; [intros _; auto|]. intros o0 Ho0. congruence. }
+    split.
+    { constructor; [|exact He|exact Hen4|].
+      - unfold Inv. apply (InvP_ext (real_evl w)); [intros sd0; unfold real_evl; rewrite Hprov; reflexivity|].
+        apply (inv_master (real_evl w) (real_evl w) g g w wc e en3 I).
+        + rewrite W4cfg. reflexivity.
+        + intros sd0. rewrite Hprov. split; [apply (i_pwf _ _ _ I)|]. split; [apply (ShapeOk_ext w wc sd0 (Hobj sd0) (i_shape _ _ _ I sd0))|].
+          apply (LogOk_ext (real_evl w) (real_evl w) w wc sd0 (Hobj sd0)); [auto|apply (i_log _ _ _ I)].
+        + exact He.
+        + exact Hen4.
+        + rewrite SA, length_list_upd. apply Nat.le_refl.
+        + intros x Hx0 Hne. rewrite SA, nth_list_upd_neq by congruence. apply nth_error_None. exact Hx0.
+        + intros x xn Hne Hxn. exists xn. split; [rewrite SA, nth_list_upd_neq by congruence; exact Hxn|apply same_but_prio_refl].
+        + intros x Hne. rewrite SB. destruct (Nat.eqb_spec x e); [contradiction|reflexivity].
+        + intros Hfl. exfalso. unfold flagged, en3 in Hfl. simpl in Hfl. discriminate.
+        + exact SC.
+        + rewrite SD. pose proof (i_clk _ _ _ I). lia.
+        + unfold maxchg, chgv, en3. simpl. apply N.le_0_l.
+        + intros sd0. rewrite Hgx. destruct (i_clke _ _ _ I e en Hn) as (_ & Hlgs). specialize (Hlgs sd0). lia.
+        + exact WT.
+        + apply SJ. apply (i_idx _ _ _ I).
+        + intros; apply Hgx.
+        + intros x xn Hne Hx2 Hxn sd0 k0 Hk0. split; [apply Hobj|]. split; [auto|reflexivity].
+        + intros sd0 k0 Hk0 Hlt. rewrite Hprov in Hlt. destruct (i_cov _ _ _ I sd0 k0 Hk0 Hlt) as [(x & xn & Hxn & Hox)|Hp]; [left|right; exact Hp].
+          destruct (Nat.eq_dec x e) as [Hxe|Hxe].
+          * subst x. exists e, en3. split; [exact Hen4|]. assert (xn = en) by congruence. subst xn.
+            destruct (Bool.bool_dec sd0 s) as [Heq|Hne]; [subst sd0; rewrite Hf_s; exact Hox|].
+            assert (sd0 = t) by (unfold t; destruct sd0, s; try reflexivity; contradiction). subst sd0. rewrite Hf_t. exact Hox.
+          * exists x, xn. split; [rewrite SA, nth_list_upd_neq by congruence; exact Hxn|exact Hox].
+        + intros sd0 k0 Hk0 Hlt Hg0. rewrite Hprov in Hlt. destruct (i_cove _ _ _ I sd0 k0 Hk0 Hlt Hg0) as (x & xn & Hxn & Hox).
+          destruct (Nat.eq_dec x e) as [Hxe|Hxe].
+          * subst x. exists e, en3. split; [exact Hen4|]. assert (xn = en) by congruence. subst xn.
+            destruct (Bool.bool_dec sd0 s) as [Heq|Hne]; [subst sd0; rewrite Hf_s; exact Hox|].
+            assert (sd0 = t) by (unfold t; destruct sd0, s; try reflexivity; contradiction). subst sd0. rewrite Hf_t. exact Hox.
+          * exists x, xn. split; [rewrite SA, nth_list_upd_neq by congruence; exact Hxn|exact Hox].
+        + intros sd0 k0 cs0 Hg0. rewrite Hobj. apply (i_ghost _ _ _ I sd0 k0 cs0 Hg0).
+        + apply (EntOk_frame (real_evl wc) (real_evl w) g g wc wc e en3 EO3); [reflexivity|].
+          intros sd0 k0 Ho0. split; [reflexivity|]. split; [rewrite Hpd; auto|reflexivity].
+      - intros sd0 k0 ob0 Ho0 Hob0. destruct (Bool.bool_dec sd0 s) as [Heq|Hne].
+        + subst sd0. rewrite Hf_s in Ho0. cbn [w_chg s_oid] in Ho0. rewrite Hobj in Hob0.
+          rewrite Hpd, Hf_s. destruct (Hr s k0 ob0 Ho0 Hob0) as [X|X]; [left; exact X|right; exact X].
+        + assert (sd0 = t) by (unfold t; destruct sd0, s; try reflexivity; contradiction). subst sd0.
+          rewrite Hf_t in Ho0. cbn [w_chg w_ex s_oid] in Ho0. congruence. }
+    split; [reflexivity|exact Hgx].
+Qed.
